@@ -1,6 +1,7 @@
 package simrt
 
 import (
+	"fmt"
 	"github.com/go-kid/ioc/component_definition"
 	"github.com/go-kid/ioc/container"
 	"github.com/go-kid/ioc/container/processors"
@@ -193,3 +194,22 @@ type CfgPD struct {
 }
 
 func (c *CfgPD) Prefix() string { return c.Section }
+
+// CfgNest is a configuration struct whose constraints live in a nested struct reached through
+// a pointer: validated (bare `validate` argument) only as far as the pointer is set.
+type CfgNest struct {
+	Inner *CfgInner `yaml:"inner"`
+	B     string    `yaml:"b"`
+}
+
+type CfgInner struct {
+	A int `yaml:"a" validate:"min=3"`
+}
+
+// String renders the value for comparison with the reference model.
+func (c CfgNest) String() string {
+	if c.Inner == nil {
+		return "{nil " + c.B + "}"
+	}
+	return fmt.Sprintf("{%d %s}", c.Inner.A, c.B)
+}
